@@ -346,6 +346,10 @@ func Div(a, b *Term) *Term {
 	if b.IsConst() && b.val.Cmp(bi(1)) == 0 {
 		return a
 	}
+	// (x div a) div b == x div (a*b) for positive constants a, b (floor division)
+	if b.IsConst() && b.val.Sign() > 0 && a.op == "div" && a.args[1].IsConst() && a.args[1].val.Sign() > 0 {
+		return Div(a.args[0], IntC(new(big.Int).Mul(a.args[1].val, b.val)))
+	}
 	return TS.mk("div", SInt, "", nil, 0, 0, a, b)
 }
 func Mod(a, b *Term) *Term {
@@ -591,6 +595,15 @@ func (p *printer) smt(t *Term, pos bool) string {
 		sb.WriteString("(" + smtName(t.name))
 		for _, a := range t.args {
 			sb.WriteByte(' ')
+			if p.ring && a.sort.K == KF && (a.op == "fadd" || a.op == "fsub" || a.op == "fmul" || a.op == "fneg") {
+				// arguments of uninterpreted functions are printed as expanded polynomials in a canonical order, so
+				// that two ways of computing the same polynomial (Horner or not, re-associated products) are the
+				// same argument for the congruence closure, which does not normalise non-linear terms by itself
+				if txt, ok := p.canonPoly(a); ok {
+					sb.WriteString(txt)
+					continue
+				}
+			}
 			sb.WriteString(p.smt(a, true))
 		}
 		sb.WriteByte(')')
@@ -607,7 +620,20 @@ func (p *printer) smt(t *Term, pos bool) string {
 		if p.ring && t.args[0].sort.K == KF && !pos {
 			name := "feq_" + t.args[0].sort.Name
 			p.uf(name, SBool, t.args)
-			return "(" + name + " " + p.smt(t.args[0], true) + " " + p.smt(t.args[1], true) + ")"
+			side := func(a *Term) string {
+				if a.op == "fadd" || a.op == "fsub" || a.op == "fmul" || a.op == "fneg" {
+					if txt, ok := p.canonPoly(a); ok {
+						return txt
+					}
+				}
+				return p.smt(a, true)
+			}
+			// feq is uninterpreted, so its symmetry has to be built in: the two sides are printed in a fixed order
+			l, r := side(t.args[0]), side(t.args[1])
+			if l > r {
+				l, r = r, l
+			}
+			return "(" + name + " " + l + " " + r + ")"
 		}
 		if t.args[0].sort.K == KBool {
 			// polarity of sub-terms unknown under iff
@@ -735,4 +761,93 @@ func termVars(t *Term, into map[*Term]bool) {
 		}
 	}
 	walk(t)
+}
+
+// fpolyOf reads a field term as a polynomial over Z in its non-arithmetic sub-terms (ring mode's reading of fadd,
+// fsub, fmul, fneg). ok is false when the expansion grows beyond a few thousand monomials.
+func fpolyOf(t *Term, budget *int) (Poly, bool) {
+	if *budget <= 0 {
+		return nil, false
+	}
+	switch t.op {
+	case "const":
+		p := Poly{}
+		p.add(nil, t.val)
+		return p, true
+	case "fadd", "fsub":
+		a, ok1 := fpolyOf(t.args[0], budget)
+		b, ok2 := fpolyOf(t.args[1], budget)
+		if !ok1 || !ok2 {
+			return nil, false
+		}
+		r := Poly{}
+		for _, m := range a {
+			r.add(m.vars, m.coef)
+		}
+		for _, m := range b {
+			c := m.coef
+			if t.op == "fsub" {
+				c = new(big.Int).Neg(c)
+			}
+			r.add(m.vars, c)
+		}
+		return r, true
+	case "fneg":
+		a, ok := fpolyOf(t.args[0], budget)
+		if !ok {
+			return nil, false
+		}
+		r := Poly{}
+		for _, m := range a {
+			r.add(m.vars, new(big.Int).Neg(m.coef))
+		}
+		return r, true
+	case "fmul":
+		a, ok1 := fpolyOf(t.args[0], budget)
+		b, ok2 := fpolyOf(t.args[1], budget)
+		if !ok1 || !ok2 {
+			return nil, false
+		}
+		*budget -= len(a) * len(b)
+		if *budget <= 0 {
+			return nil, false
+		}
+		return polyMul(a, b), true
+	}
+	p := Poly{}
+	p.add([]*Term{t}, big.NewInt(1))
+	return p, true
+}
+
+func (p *printer) canonPoly(t *Term) (string, bool) {
+	budget := 4000
+	poly, ok := fpolyOf(t, &budget)
+	if !ok {
+		return "", false
+	}
+	var keys []string
+	for k := range poly {
+		keys = append(keys, k)
+	}
+	sort.Strings(keys)
+	if len(keys) == 0 {
+		return "0", true
+	}
+	var parts []string
+	for _, k := range keys {
+		m := poly[k]
+		fs := []string{smtInt(m.coef)}
+		for _, v := range m.vars {
+			fs = append(fs, p.smt(v, true))
+		}
+		if len(fs) == 1 {
+			parts = append(parts, fs[0])
+		} else {
+			parts = append(parts, "(* "+strings.Join(fs, " ")+")")
+		}
+	}
+	if len(parts) == 1 {
+		return parts[0], true
+	}
+	return "(+ " + strings.Join(parts, " ") + ")", true
 }
